@@ -1,15 +1,24 @@
 (* C02 — the backtracking and the PikeVM executors return identical matches.
    Both interpreters are modelled (Model/BT.v, Model/Pike.v) and run against the implementation on every
-   check (matches, captures, exact step counts).  Proved here: the PikeVM half of the common reference —
-   for every program emit produces, the PikeVM model's search returns exactly the leftmost-first match of the
-   big-step IR semantics (Spec/IRSem.v): same start, same end, same value for every capture group
-   (result_of carries caps_of of the semantic capture list), in whichever input mode the indexer ix stands for.
-   Not proved: the corresponding statement for the backtracking model; agreement of the two on the
-   implementation is evaluated on the generated stream (PROPVIOL C02) on every run. *)
+   check (matches, captures, exact step counts).  Proved here, for every program emit produces:
+   (1) the PikeVM model's search returns exactly the leftmost-first match of the big-step IR semantics
+       (Spec/IRSem.v): same start, same end, same value for every capture group, every node kind;
+   (2) the backtracking model's search (prefilter-free: bt_search (fun _ => true), which is next_match for an
+       Arbitrary start predicate) returns that same match, for every node kind except Loop1CharBody — i.e. for
+       everything compiled with Flags::no_opt and for optimised programs without a single-character loop;
+   (3) hence the two agree with each other (same match, same captures, same next start) in the UTF-8 and in the
+       ASCII input mode.
+   Hypotheses, all evaluated by the driver on every generated case: the IR semantics is defined on the search
+   (ir_search = Some r); the IR has the shape the parser/optimizer guarantee (top_shape, bt_wf: lookaround
+   capture ranges cover their bodies); for UTF-8, the positions the search visits stay within the haystack (walk_ok,
+   true of valid UTF-8 from a character boundary); for ASCII, the haystack is made of bytes.
+   Not proved: (2) for Loop1CharBody (the backtracker's run_scm_loop); the effect of the start prefilter (C04);
+   the Matches iteration on top of next_match (C09 proves it from the first-match function). *)
 From RV Require Import Base.
 From RV.Model Require Import Utf8 Indexer CodePointSet Insn IR Optimizer Unfold Emit Pike BT Exec Fold.
 From RV.Spec Require Import IRSem.
-From RV.Proofs Require Import PikeDen PikeCorrect PikeTop.
+From RV.Spec Require Import IRShape.
+From RV.Proofs Require Import PikeDen PikeCorrect PikeTop BTDen BTCorrect BTTop IndexerFacts Agree.
 From RV.Gen Require Import FoldTables.
 
 Theorem c02_pikevm_search_is_ir_semantics : forall ix h utf16 unicode ml n body prog names fuel tries p r,
@@ -26,6 +35,44 @@ Proof. exact pike_emit_correct. Qed.
 Theorem c02_pikevm_node_correct : forall ix prog h utf16 f, node_ok ix prog h utf16 f.
 Proof. exact all_ok. Qed.
 
+Theorem c02_backtracker_search_is_ir_semantics : forall ix h utf16 unicode ml n body prog names fuel tries p r,
+  (forall fwd p c p', cnext ix fwd h p = Ok (Some (c, p')) -> ix_elem_of_u32 ix c = true) ->
+  walk_ok ix h tries p = true ->
+  top_shape n body ->
+  emit utf16 unicode ml n = Ok (prog, names) ->
+  bt_wf (p_groups prog) (NCat body) = true ->
+  ir_search ix unicode utf16 h fuel (NCat body) (p_groups prog) tries p = Some r ->
+  exists f0 k st', forall pfuel n budget, (f0 <= pfuel)%nat -> n + k <= budget ->
+    bt_search ix prog h budget pfuel (fun _ => true) tries (bt_init prog) p n = (bt_result_of ix h r st', n + k).
+Proof. exact bt_emit_correct. Qed.
+
+(* every node kind except Loop1CharBody: the backtracker explores exactly the ordered successes of the IR
+   semantics, restoring captures, stack and loop data behind each of them *)
+Theorem c02_backtracker_node_correct : forall ix prog h utf16,
+  (forall fwd p c p', cnext ix fwd h p = Ok (Some (c, p')) -> ix_elem_of_u32 ix c = true) ->
+  forall f, bnode_ok ix prog h utf16 f.
+Proof. exact ball_ok. Qed.
+
+Theorem c02_engines_agree_utf8 : forall fold h utf16 unicode ml n body prog names fuel tries p r,
+  walk_ok (utf8_indexer fold) h tries p = true ->
+  top_shape n body -> emit utf16 unicode ml n = Ok (prog, names) -> bt_wf (p_groups prog) (NCat body) = true ->
+  ir_search (utf8_indexer fold) unicode utf16 h fuel (NCat body) (p_groups prog) tries p = Some r ->
+  exists f0 kb kp, forall pfuel nb np budget, (f0 <= pfuel)%nat -> nb + kb <= budget -> np + kp <= budget ->
+    xobs (fst (bt_search (utf8_indexer fold) prog h budget pfuel (fun _ => true) tries (bt_init prog) p nb)) =
+    fst (pk_search (utf8_indexer fold) prog h budget pfuel tries (pk_init_state prog p) np) /\
+    fst (pk_search (utf8_indexer fold) prog h budget pfuel tries (pk_init_state prog p) np) = result_of (utf8_indexer fold) h r.
+Proof. exact engines_agree_utf8. Qed.
+
+Theorem c02_engines_agree_ascii : forall h utf16 unicode ml n body prog names fuel tries p r,
+  bytes_ok h -> (p <= length h)%nat ->
+  top_shape n body -> emit utf16 unicode ml n = Ok (prog, names) -> bt_wf (p_groups prog) (NCat body) = true ->
+  ir_search ascii_indexer unicode utf16 h fuel (NCat body) (p_groups prog) tries p = Some r ->
+  exists f0 kb kp, forall pfuel nb np budget, (f0 <= pfuel)%nat -> nb + kb <= budget -> np + kp <= budget ->
+    xobs (fst (bt_search ascii_indexer prog h budget pfuel (fun _ => true) tries (bt_init prog) p nb)) =
+    fst (pk_search ascii_indexer prog h budget pfuel tries (pk_init_state prog p) np) /\
+    fst (pk_search ascii_indexer prog h budget pfuel tries (pk_init_state prog p) np) = result_of ascii_indexer h r.
+Proof. exact engines_agree_ascii. Qed.
+
 (* Non-vacuity: a capture group under a lazy loop with a backreference and a lookbehind, UTF-8 mode.
    (?:(a|b)+?)\1(?<=bb) on "abb": the IR semantics is defined and yields 0..3 with group 1 = 1..2. *)
 Definition c02_body : list node :=
@@ -33,7 +80,7 @@ Definition c02_body : list node :=
    NLookaround false true 1 1 (NCat [NChar 98; NChar 98])].
 Example c02_example_hypotheses :
   (exists prog names, emit false false false (NCat (c02_body ++ [NGoal])) = Ok (prog, names) /\ p_groups prog = 1%nat) /\
-  ir_wf (NCat c02_body) = true /\
+  ir_wf (NCat c02_body) = true /\ bt_wf 1 (NCat c02_body) = true /\ walk_ok (utf8_indexer fold_code_point) [97; 98; 98] 5 0 = true /\ top_shape (NCat (c02_body ++ [NGoal])) c02_body /\
   ir_search (utf8_indexer fold_code_point) false false [97; 98; 98] 50 (NCat c02_body) 1 5 0
     = Some (Some (0, 3, [mkGD (Some 1) (Some 2)]))%nat.
-Proof. repeat split; try (vm_compute; reflexivity). eexists; eexists; split; vm_compute; reflexivity. Qed.
+Proof. repeat split; try (vm_compute; reflexivity); try (left; reflexivity). eexists; eexists; split; vm_compute; reflexivity. Qed.
